@@ -54,9 +54,13 @@ def run_C02(tier, seed):
     for fam, cnt in (("alter", 14 if q else 80), ("capacity", 8 if q else 40), ("batch", 8 if q else 40), ("promise", 6 if q else 40)):
         sc, _ = stages.pick_scenarios(fam, tier, seed, lambda s: verifies(s) and nm_of(s) <= bound and s["sc"]["mode"] != "RecoverOnly", cnt, prop="C02")
         picks += sc
-    res.append(stages.trace_stage("C02", "relation", picks, seed, arith=True))
-    # (c) verdict agreement on every single alteration, both groups
+    # proofs with surplus or missing folding rounds must never reach the final check with a mismatched round count
+    rounds, _ = stages.pick_scenarios("alter", tier, seed, lambda s: s["sc"]["members"][0]["mut"]["kind"] == "rounds" and s["sc"]["mode"] == "VerifyOnly", 40, prop="C02")
+    res.append(stages.trace_stage("C02", "relation", picks + rounds, seed, arith=True))
+    # (c) verdict agreement on every single alteration (both groups) and on mixed batches
     res.append(stages.api_stage("C02", "alter", tier, seed))
+    res.append(stages.api_stage("C02", "capacity", tier, seed, groups=("fm",)))
+    res.append(stages.api_stage("C02", "batch", tier, seed, groups=("fm",)))
     return res
 
 
@@ -108,7 +112,7 @@ def run_C08(tier, seed):
            stages.simple_mc_stage("C08", "MC_Transcript", stages.transcript_cfg(), [("weight_blind_to_" + o, stages.transcript_cfg(omit=o), "WeightBound") for o in ("r1", "s1", "d1")], name="weight-binding")]
     # provenance and homogeneity of the weights actually used, on multi-member batches, in 252-bit arithmetic
     sc, _ = stages.pick_scenarios("batch", tier, seed, lambda s: verifies(s) and len(s["sc"]["members"]) >= 2 and nm_of(s) <= 16 and s["sc"]["skew"] == [0, 0, 0], 14 if q else 150, prop="C08")
-    sc2, _ = stages.pick_scenarios("recover", tier, seed, lambda s: verifies(s) and len(s["sc"]["members"]) >= 2 and s["sc"]["mode"] != "RecoverOnly", 6 if q else 60, prop="C08")
+    sc2, _ = stages.pick_scenarios("recover", tier, seed, lambda s: verifies(s) and len(s["sc"]["members"]) >= 2 and s["sc"]["mode"] != "RecoverOnly" and s["sc"]["members"][0]["t"] == 6, 8 if q else 60, prop="C08")
     res.append(stages.trace_stage("C08", "weights", sc + sc2, seed, module="TraceVerify", calls="verify"))
     # a response scalar changed => the proof's contribution to the weight transcript and all weights change
     sc3, r = stages.pick_scenarios("bind", tier, seed, lambda s: s["sc"]["wdiff"], 10000, prop="C08")
@@ -172,8 +176,10 @@ def run_C16(tier, seed):
     d.name += "@dev"
     res.append(d)
     res.append(stages.api_stage("C16", "alter", tier, seed, groups=("rist",)))
-    b = stages.api_stage("C16", "batch", tier, seed, groups=("fm",), filter_fn=lambda s: s["sc"]["skew"] != [0, 0, 0] or len(s["sc"]["members"]) > 4)
-    res.append(b)
+    res.append(stages.api_stage("C16", "batch", tier, seed, groups=("fm",), profile="dev"))
+    big = stages.api_stage("C16", "batch", tier, seed, groups=("rist",), scale="2:256", scale_min=0, limit=60 if q else 600)
+    big.name = "api:batch@256"
+    res.append(big)
     return res
 
 
